@@ -300,6 +300,8 @@ def configure(
             data.pop()
     if skipped:
         raise LayoutError('incomplete configuration')
+    if any(site is None for site in nodemap.values()):
+        raise LayoutError('possibly disconnected graph')
 
     _process_epigraph(node)
     tree = Tree(node, metadata=g.metadata)
@@ -312,12 +314,12 @@ def _configure(g, top, model):
     """
     Create the tree that can be created without any improvising.
     """
-    if len(g.triples) == 0:
+    if top is None:
+        top = g.top
+    if len(g.triples) == 0 and top == g.top:
         return (g.top, []), [], {}
 
     nodemap: _Nodemap = {var: None for var in g.variables()}  # type: ignore
-    if top is None:
-        top = g.top
     if top not in nodemap:
         raise LayoutError(f'top is not a variable: {top!r}')
     nodemap[top] = (top, [])
